@@ -3,6 +3,7 @@ package main
 import (
 	"bytes"
 	"context"
+	"math/rand"
 	"crypto/ed25519"
 	"crypto/sha1"
 	"fmt"
@@ -32,6 +33,7 @@ func runC01(r *Run) {
 		if i%2 == 0 && !sc.dead {
 			sc.hostileReplies(i)
 		}
+		sc.ownIDReplies()
 		sc.probe()
 		r.Result.TracesValidated++
 		if i < 3 {
@@ -229,14 +231,20 @@ func (sc *srvScen) hostileStream(n int) {
 }
 
 // A reply to one of the server's own queries with any subset of fields present, absent or malformed.
-func (sc *srvScen) hostileReplyTo(d dgram, key ed25519.PublicKey, salt []byte, priv ed25519.PrivateKey) []byte {
-	r := sc.r.rng
-	rid := sc.r.randID()
+func (sc *srvScen) hostileReplyTo(lr *Run, d dgram, key ed25519.PublicKey, salt []byte, priv ed25519.PrivateKey) []byte {
+	r := lr.rng
+	rid := lr.randID()
+	switch r.Intn(8) {
+	case 0:
+		rid = sc.root // a reply that claims the node's own ID
+	case 1:
+		rid = [20]byte{}
+	}
 	rd := bD("id", bB(rid[:]))
 	// plausible contents first
 	var nodes []byte
 	for i := 0; i < r.Intn(4); i++ {
-		nodes = append(nodes, compactNode(sc.r.randID(), sc.r.randIP(0), 1+r.Intn(65000))...)
+		nodes = append(nodes, compactNode(lr.randID(), lr.randIP(0), 1+r.Intn(65000))...)
 	}
 	if len(nodes) > 0 {
 		rd.set("nodes", bB(nodes))
@@ -245,7 +253,7 @@ func (sc *srvScen) hostileReplyTo(d dgram, key ed25519.PublicKey, salt []byte, p
 		rd.set("token", bS("tk"))
 	}
 	if r.Intn(3) == 0 {
-		rd.set("values", bL(bB(compactAddr(sc.r.randIP(0), 5)), bB(compactAddr(sc.r.randIP(1), 6))))
+		rd.set("values", bL(bB(compactAddr(lr.randIP(0), 5)), bB(compactAddr(lr.randIP(1), 6))))
 	}
 	if d.q == "get" {
 		v := bS("hello").enc()
@@ -274,7 +282,7 @@ func (sc *srvScen) hostileReplyTo(d dgram, key ed25519.PublicKey, salt []byte, p
 		case 0:
 			rd.del(k)
 		case 1:
-			rd.set(k, sc.r.randBval(2))
+			rd.set(k, lr.randBval(2))
 		default:
 			b := make([]byte, []int{0, 1, 5, 19, 21, 25, 27, 37, 39}[r.Intn(9)])
 			rd.set(k, bB(b))
@@ -288,14 +296,14 @@ func (sc *srvScen) hostileReplyTo(d dgram, key ed25519.PublicKey, salt []byte, p
 		m.set("y", bS("e"))
 		m.set("e", bL(bI(203), bS("no")))
 	case 2:
-		m.set("r", sc.r.randBval(2))
+		m.set("r", lr.randBval(2))
 	case 3:
 		m.set("y", bS("e"))
-		m.set("e", sc.r.randBval(2))
+		m.set("e", lr.randBval(2))
 	}
 	raw := m.enc()
 	if r.Intn(8) == 0 {
-		raw = sc.mutateBytes(raw)
+		raw = (&srvScen{r: lr}).mutateBytes(raw)
 	}
 	return raw
 }
@@ -311,6 +319,8 @@ func (sc *srvScen) hostileReplies(variant int) {
 	var budget atomic.Int64
 	budget.Store(int64(20 + r.Intn(60)))
 	var mu sync.Mutex
+	// private PRNG for the callback: it runs on the server's goroutines
+	lr := &Run{rng: rand.New(rand.NewSource(r.Int63()))}
 	sc.conn.onWrite = func(w written) {
 		d := parseDgram(w)
 		if !d.ok || d.y != "q" {
@@ -320,7 +330,7 @@ func (sc *srvScen) hostileReplies(variant int) {
 			return
 		}
 		mu.Lock()
-		raw := sc.hostileReplyTo(d, pub, salt, priv)
+		raw := sc.hostileReplyTo(lr, d, pub, salt, priv)
 		what := fmt.Sprintf("hostile reply to %s query t=%x", d.q, d.t)
 		sc.r.lastInput(fmt.Sprintf("from %s: %s (hex %s)", w.Addr, what, hx(raw)))
 		mu.Unlock()
@@ -424,3 +434,52 @@ func (sc *srvScen) probe() {
 type rngReader struct{ r *Run }
 
 func (rr rngReader) Read(p []byte) (int, error) { return rr.r.rng.Read(p) }
+
+// Well-formed replies to the node's own pings that claim the node's own ID, the zero ID, or an ID
+// already in the table under another address: through Ping (the caller's goroutine consumes the
+// reply) and through AddNode with a zero ID (a library goroutine does).
+func (sc *srvScen) ownIDReplies() {
+	if sc.dead {
+		return
+	}
+	for i, rid := range [][20]byte{sc.root, {}, sc.r.randID()} {
+		addr := sc.freshSrc(0)
+		if sc.isBlocked(addr.IP) {
+			continue
+		}
+		w0 := sc.conn.numWrites()
+		done := make(chan struct{})
+		go func() {
+			defer close(done)
+			if i%2 == 0 {
+				sc.s.Ping(addr)
+			} else {
+				sc.s.AddNode(nodeInfo([20]byte{}, addr)) // pings in the background
+				time.Sleep(2 * time.Millisecond)
+			}
+		}()
+		var d dgram
+		if !waitFor(func() bool {
+			for _, w := range sc.conn.writes()[w0:] {
+				if sameUDP(w.Addr, addr) {
+					if x := parseDgram(w); x.ok && x.y == "q" {
+						d = x
+						return true
+					}
+				}
+			}
+			return false
+		}, 3*time.Second) {
+			continue
+		}
+		raw := mkReply(string(d.t), bD("id", bB(rid[:]))).enc()
+		sc.fire(addr, raw, fmt.Sprintf("ping reply claiming id %x", rid[:4]))
+		select {
+		case <-done:
+		case <-time.After(5 * time.Second):
+			sc.viol("C01", "Ping did not return after a reply claiming a special ID")
+		}
+		time.Sleep(300 * time.Microsecond)
+		sc.r.hist("stream/ping-reply-special-id")
+	}
+}
